@@ -219,11 +219,13 @@ def st_shared_history(draw):
     steps = []
     n_bare = draw(st.integers(1, 2))
     for _ in range(draw(st.integers(2, 6))):
-        kind = draw(st.sampled_from(["dec", "dec", "cls", "cls", "redec"]))
+        kind = draw(st.sampled_from(["dec", "dec", "cls", "cls", "redec", "reuse"]))
         if kind == "dec":
             steps.append(["dec", draw(st.integers(0, n_bare - 1)), draw(st.sampled_from(["require", "ensure"]))])
         elif kind == "redec":
             steps.append(["redec", draw(st.integers(0, 5)), draw(st.sampled_from(["require", "ensure"]))])
+        elif kind == "reuse":
+            steps.append(["cls", draw(st.integers(0, 2)), -1, "both"])  # the sub-class re-uses the root's method: m = Root.m
         else:
             steps.append(["cls", draw(st.integers(0, 2)), draw(st.integers(0, n_bare - 1)),
                           draw(st.sampled_from(["pre", "post", "both"]))])
@@ -338,13 +340,16 @@ def check_shared_history(ctx, case):
                 for nme, v in snap.items():
                     base.setdefault(nme, v)
             Root, rc = roots[r]
-            ns = {"m": bares[k]}
+            ns = {"m": bares[k] if k >= 0 else Root.__dict__["m"]}
+            if k < 0:
+                feats.add("base-method-re-used-as-is")
             Sub = type(Root)("Sub%d" % si, (Root,), ns)
             objs["Sub%d" % si] = (lambda K: lambda x: K().m(x))(Sub)
             own["Sub%d" % si] = set(rc)
-            if sum(1 for s in steps[:si + 1] if s[0] == "cls" and s[2] == k) >= 2:
+            if k >= 0 and sum(1 for s in steps[:si + 1] if s[0] == "cls" and s[2] == k) >= 2:
                 feats.add("helper-installed-in-two-classes")
-            if any(s[0] == "dec" and s[1] == k for s in steps[:si]) or any(s[0] == "cls" and s[2] == k for s in steps[:si]):
+            if k >= 0 and (any(s[0] == "dec" and s[1] == k for s in steps[:si]) or
+                           any(s[0] == "cls" and s[2] == k for s in steps[:si])):
                 feats.add("helper-also-wrapped-elsewhere")
         snap = probe_all()
         for name, v in snap.items():
